@@ -59,6 +59,7 @@ class HPR(HostNames):
         self.description = description
         self.comments = []
         self.declined = False
+        self.approvers = None          # None: approved by the author and a peer
 
     @property
     def src_commit(self):
@@ -93,10 +94,10 @@ class HPR(HostNames):
         self.host.effects.append(('decline', self.id))
 
     def get_approvals(self):
-        return [self.author, 'peer']
+        return [self.author, 'peer'] if self.approvers is None else list(self.approvers)
 
     def get_participants(self):
-        return [self.author, 'peer']
+        return [self.author, 'peer'] if self.approvers is None else list(self.approvers)
 
     def get_change_requests(self):
         return []
@@ -188,6 +189,7 @@ class BaseSession:
         the long-lived clone object, then dispatches to the registered handler)."""
         from bert_e import exceptions as ex
         from bert_e.lib import git as G
+        from bert_e.lib.simplecmd import CommandError
         self.start_job()
         self.host.effects = []
         self.host.asked = []
@@ -208,6 +210,12 @@ class BaseSession:
             out = 'MergeFailed'
         except G.RemoveFailedException:
             out = 'RemoveFailed'
+        except CommandError:
+            out = 'CommandError'
+        except HarnessError:
+            raise
+        except Exception as e:              # what process_task would record as the job status
+            out = 'UNEXPECTED:' + type(e).__name__
         finally:
             self.crash_at = None
             self.end_job()
@@ -311,7 +319,7 @@ class BaseSession:
                 recs.append(getattr(self, kind)(*args))
             elif kind == 'src_push':
                 self.third_party_commit(self.host.prs[args[0]].src_branch, *args[1:])
-            elif kind == 'ref_push':
+            elif kind == 'ref_push':            # somebody pushes a commit of his own on that branch
                 self.third_party_commit(*args)
             elif kind == 'comment':
                 self.user_comment(*args)
@@ -320,6 +328,26 @@ class BaseSession:
                 p.comments = [c for c in p.comments if not (c.author != ROBOT and c.text == args[1])]
             elif kind == 'decline':
                 self.decline(args[0])
+            elif kind == 'approvals':           # reviewers approve / withdraw on the host
+                self.host.prs[args[0]].approvers = None if args[1] is None else list(args[1])
+            elif kind == 'resolve':             # the author resolves the conflict on w/<target>/<src> by hand
+                p = self.host.prs[args[0]]
+                t = args[1]
+                ts = GF.targets(self.shape, p.dst_branch)
+                k = ts.index(t)
+                prev = p.src_branch if k == 1 else 'w/%s/%s' % (GF.version_of(ts[k - 1]), p.src_branch)
+                self.third_party_merge('w/%s/%s' % (GF.version_of(t), p.src_branch), t, prev, *args[2:])
+            elif kind == 'ref_create':          # a third party creates a branch (between jobs)
+                self.third_party_branch(*args)
+            elif kind == 'ref_delete':          # its owners delete a branch on the host
+                self.third_party_delete(*args)
+            elif kind == 'fetch_fault':         # the next refresh of the mirror cache fails
+                self.set_fetch_fault()
+            elif kind == 'tmp_reaper':          # the previous job's scratch directory vanished (tmp cleaner)
+                import shutil
+                d = getattr(self.repo, 'tmp_directory', None)
+                if d and os.path.isdir(d):
+                    shutil.rmtree(d, ignore_errors=True)
             elif kind == 'new_server':
                 self.new_server()
             else:
@@ -335,10 +363,11 @@ def quiet(rec):
 # -------------------------------------------------------------------------------------------
 class SymSession(BaseSession):
     """History on the symbolic repository."""
+    counter = 0
 
     def __init__(self, ctx, shape, prs, mode, no_octopus=True, nfresh=40, extra_refs=(),
                  with_w=False, natoms=None, settings=None, monitors=(), fresh_prs=True,
-                 green=False, no_conflicts=False):
+                 green=False, no_conflicts=False, log_cut=True):
         self.ctx = ctx
         refs = list(shape) + [p.src for p in prs] + list(extra_refs)
         if with_w:
@@ -348,8 +377,12 @@ class SymSession(BaseSession):
         if natoms is None:
             natoms = len(refs) + 1
         repo = SymRepo(ctx, refs + qrefs, natoms, nfresh)
+        SymSession.counter += 1
+        repo._url = 'sym://host/r%d_%d' % (os.getpid(), SymSession.counter)    # its own mirror cache
+        repo.model_clone = True
         repo.content_keyed = True
-        repo.log_cut = True
+        repo.log_cut = log_cut
+        repo.log_model = not log_cut
         repo.no_conflicts = no_conflicts      # bound of some histories: merges never conflict
         self.green = green                    # bound of some histories: every build is green
         GF.assume_inclusion(ctx, repo, shape)
@@ -384,11 +417,16 @@ class SymSession(BaseSession):
         roots = list(r.remote.values()) + list(r.remote_tags.values())
         for snap in self.snapshots:
             roots += list(snap['remote'].values()) + list(snap['tags'].values())
+            roots += list((snap.get('cache') or {}).values()) + list((snap.get('cache_tags') or {}).values())
         r.gc_fresh(roots)
+        if r.cache is not None:
+            roots += list(r.cache.values()) + list(r.cache_tags.values())
+            r.gc_fresh(roots)
         r.job_pre_remote = dict(r.remote)
-        r.tip = dict(r.remote)
-        r.tracking = dict(r.remote)
-        r.tags = dict(r.remote_tags)
+        # the local clone is made by the real Repository.clone() (mirror cache -> working copy)
+        r.tip = {}
+        r.tracking = {}
+        r.tags = {}
         r.head = None
         r.rejected = {}
         r.refused = []
@@ -465,10 +503,34 @@ class SymSession(BaseSession):
         r.remote[ref] = a
         self.pushed_atoms.append(a.as_long())
 
+    def third_party_branch(self, name, at_ref):
+        r = self.repo
+        if at_ref in r.remote:
+            r.remote[name] = r.remote[at_ref]
+
+    def third_party_merge(self, ref, base_ref, other_ref, atom=None):
+        """The author resolves a conflict by hand: `ref` := a new commit (with content
+        of its own) on top of base_ref that also contains other_ref."""
+        r = self.repo
+        if base_ref not in r.remote or other_ref not in r.remote:
+            return
+        a = r.fresh(r.cl(r.remote[base_ref]) | r.cl(r.remote[other_ref]),
+                    'manual resolution on ' + ref, parents=[r.remote[base_ref], r.remote[other_ref]])
+        r.remote[ref] = a
+        self.pushed_atoms.append(a.as_long())
+
+    def third_party_delete(self, name):
+        self.repo.remote.pop(name, None)
+
+    def set_fetch_fault(self):
+        self.repo.fetch_fault = True
+
     # -- snapshots (to run two continuations of one prefix on the same path) ----------------
     def snapshot(self):
         r = self.repo
         snap = dict(remote=dict(r.remote), tags=dict(r.remote_tags),
+                    cache=None if r.cache is None else dict(r.cache),
+                    cache_tags=None if r.cache_tags is None else dict(r.cache_tags),
                     prs=dict(self.host.prs),
                     comments={i: list(p.comments) for i, p in self.host.prs.items()},
                     declined={i: p.declined for i, p in self.host.prs.items()},
@@ -480,6 +542,8 @@ class SymSession(BaseSession):
         r = self.repo
         r.remote = dict(snap['remote'])
         r.remote_tags = dict(snap['tags'])
+        r.cache = None if snap['cache'] is None else dict(snap['cache'])
+        r.cache_tags = None if snap['cache_tags'] is None else dict(snap['cache_tags'])
         self.host.prs = dict(snap['prs'])
         for i, p in self.host.prs.items():
             p.comments = list(snap['comments'][i])
@@ -498,6 +562,10 @@ class SymSession(BaseSession):
         """Concrete pre-state and choices under model m (for RealSession)."""
         r = self.repo
         w = r.concretize(m)
+        w['conflicts'] = []
+        for d, c1, c2, took in r.conflict_queries:
+            if took:
+                w['conflicts'].append([model_value(m, d), model_value(m, c1), model_value(m, c2)])
         w['status_by_content'] = {}
         for c, t in self.status_queries:
             w['status_by_content'][str(model_value(m, c))] = symgit.STATUSES[
@@ -509,7 +577,7 @@ class SymSession(BaseSession):
 class RealSession(BaseSession):
     """The same history on a real repository built from a concrete world."""
 
-    def __init__(self, world_data, shape, prs, mode, no_octopus=True, settings=None):
+    def __init__(self, world_data, shape, prs, mode, no_octopus=True, settings=None, log_cut=True):
         from symgit.realgit import RealWorld
         self.w = world_data
         reject = [r for r, b in world_data.get('rejected', {}).items() if b]
@@ -518,7 +586,7 @@ class RealSession(BaseSession):
         self.status_by_content = dict(world_data.get('status_by_content', {}))
         self.next_atom = world_data['N']
         self.reject_next = None
-        self.log_cut = True
+        self.log_cut = log_cut
         super().__init__(shape, prs, mode, no_octopus, settings)
         self.make_berte()
         self._patch()
@@ -533,6 +601,15 @@ class RealSession(BaseSession):
                 sess.boundary(command % args if args else command)
             if rself is sess.repo and command.startswith('git log') and sess.log_cut:
                 return ''       # the same cut as in the model (symgit.log_cut)
+            if rself is sess.repo and command.startswith('git merge '):
+                full = command % args if args else command
+                if sess._merge_conflicts(rself, full):
+                    from bert_e.lib.simplecmd import CommandError
+                    raise CommandError('Command %s returned with code 1: CONFLICT (content): as the model says' % full)
+            if rself is sess.repo and command.startswith('git fetch') and getattr(sess, 'fail_fetch', False):
+                from bert_e.lib.simplecmd import CommandError
+                sess.fail_fetch = False
+                raise CommandError('Command git fetch --prune returned with code 128: fatal: unable to access')
             return sess._orig_cmd(rself, command, *args, **kw)
         G.Repository.cmd = cmd
 
@@ -624,6 +701,77 @@ class RealSession(BaseSession):
     def content_of(self, ref):
         h = self.world.heads()
         return self.content_mask(h[ref]) if ref in h else None
+
+    def third_party_branch(self, name, at_ref):
+        from symgit.realgit import git
+        h = self.world.heads()
+        if at_ref in h:
+            git(self.world.bare, 'update-ref', 'refs/heads/' + name, h[at_ref])
+
+    def third_party_delete(self, name):
+        from symgit.realgit import git
+        if name in self.world.heads():
+            git(self.world.bare, 'update-ref', '-d', 'refs/heads/' + name)
+
+    def third_party_merge(self, ref, base_ref, other_ref, atom=None):
+        from symgit.realgit import git
+        h = self.world.heads()
+        if base_ref not in h or other_ref not in h:
+            return
+        i = atom if atom is not None else self.next_atom
+        self.next_atom = max(self.next_atom, i) + 1
+        bare = self.world.bare
+        blob = git(bare, 'hash-object', '-w', '--stdin', inp='atom %d\n' % i)
+        lines = set(git(bare, 'ls-tree', h[base_ref]).splitlines()) | set(git(bare, 'ls-tree', h[other_ref]).splitlines())
+        lines.add('100644 blob %s\ta%02d' % (blob, i))
+        tree = git(bare, 'mktree', inp='\n'.join(sorted(lines, key=lambda l: l.split('\t')[1])) + '\n')
+        c = git(bare, 'commit-tree', tree, '-p', h[base_ref], '-p', h[other_ref], '-m', 'manual resolution %d' % i)
+        git(bare, 'update-ref', 'refs/heads/' + ref, c)
+
+    def _merge_conflicts(self, rself, full):
+        """Would this `git merge` conflict according to the model's conflict function?"""
+        import shlex
+        import subprocess
+        table = set(tuple(x) for x in self.w.get('conflicts', []))
+        if not table:
+            return False
+        cwd = rself.cmd_directory
+
+        def g(*a, check=True):
+            r = subprocess.run(['git'] + list(a), cwd=cwd, stdout=subprocess.PIPE, stderr=subprocess.PIPE, text=True)
+            return r.stdout.strip() if check else r.returncode
+
+        def mask(rev):
+            m = 0
+            for line in g('ls-tree', '--name-only', rev).splitlines():
+                if line.startswith('a') and line[1:].isdigit():
+                    m |= 1 << int(line[1:])
+            return m
+        srcs = [t for t in shlex.split(full)[2:] if not t.startswith('--')]
+        live = [x for x in srcs if g('merge-base', '--is-ancestor', x, 'HEAD', check=False) != 0]
+        red = []
+        for k, x in enumerate(live):
+            dom = False
+            for j, y in enumerate(live):
+                if j == k:
+                    continue
+                if g('merge-base', '--is-ancestor', x, y, check=False) == 0:
+                    if g('merge-base', '--is-ancestor', y, x, check=False) == 0 and k < j:
+                        continue
+                    dom = True
+                    break
+            if not dom:
+                red.append(x)
+        if not red:
+            return False
+        if len(red) == 1 and g('merge-base', '--is-ancestor', 'HEAD', red[0], check=False) == 0 \
+                and '--no-ff' not in full:
+            return False            # fast-forward
+        key = (mask('HEAD'), mask(red[0]), mask(red[1]) if len(red) > 1 else 0)
+        return key in table
+
+    def set_fetch_fault(self):
+        self.fail_fetch = True
 
     # commits are immutable: a snapshot of the server is its ref table
     def snapshot(self):
